@@ -229,6 +229,16 @@ func (e *Engine) runTargets(ts []target, mode string) *checkResult {
 				res.assumed = append(res.assumed, displayKey(fx.key)+": "+r.Text)
 			}
 		}
+		for _, r := range fx.con.Ens {
+			if r.Kind == "censures" && !strings.HasPrefix(r.Text, "visited[") {
+				res.assumed = append(res.assumed, displayKey(fx.key)+" (postcondition assumed at call sites, not proved in the body): "+r.Text)
+			}
+		}
+		defer func(fx *FnExec) {
+			for _, w := range dedup(fx.waived) {
+				res.assumed = append(res.assumed, displayKey(fx.key)+" (obligation class waived) "+w)
+			}
+		}(fx)
 		if fx.con != nil && hasFlag(fx.con, "nosafety") {
 			res.nosafety = append(res.nosafety, displayKey(fx.key))
 		}
@@ -444,7 +454,7 @@ func splitFields(s string) []string {
 
 var reOrdSuffix = regexp.MustCompile(`(@ret\d+|@b\d+)$`)
 var rePreOrd = regexp.MustCompile(`@\d+\.`)
-var reNumbered = regexp.MustCompile(`/(nil|idx|assert|div|unreachable|makeslice|typeinv|monotone|cover|frame|pre)#`)
+var reNumbered = regexp.MustCompile(`/(nil|idx|assert|div|unreachable|makeslice|typeinv|monotone|immutable|boxnil|cover|frame|pre)#`)
 
 // canonName: the stable part of an obligation name. Return/latch ordinals are dropped, and
 // obligations that are only numbered in instruction order (safety checks) have no stable name.
